@@ -171,3 +171,115 @@ class Workspace:
             errs = [l for l in out1.split("\n") if l.startswith("error")]
             res[m] = (rc1 == 0, "\n".join(errs[:6]))
         return res
+
+
+# ---- running the generated servers (C03-C07) ---------------------------------------------------
+
+RUNNER_MAIN_HEAD = r'''//! Generated: starts each generated server on 127.0.0.1:0, replays scripted requests over raw TCP,
+//! returns status/headers/body and the application trace per request. One JSON document on stdout.
+use std::io::{Read, Write};
+
+fn http(port: u16, method: &str, path: &str, host: &str) -> serde_json::Value {
+    let mut s = match std::net::TcpStream::connect(("127.0.0.1", port)) {
+        Ok(s) => s,
+        Err(e) => return serde_json::json!({"error": format!("connect: {e}")}),
+    };
+    s.set_read_timeout(Some(std::time::Duration::from_secs(10))).unwrap();
+    let req = format!("{method} {path} HTTP/1.1\r\nHost: {host}\r\nConnection: close\r\nContent-Length: 0\r\n\r\n");
+    if let Err(e) = s.write_all(req.as_bytes()) {
+        return serde_json::json!({"error": format!("write: {e}")});
+    }
+    let mut buf = Vec::new();
+    let _ = s.read_to_end(&mut buf);
+    let text = String::from_utf8_lossy(&buf).to_string();
+    let (head, body) = text.split_once("\r\n\r\n").unwrap_or((&text, ""));
+    let mut lines = head.split("\r\n");
+    let status: u16 = lines.next().and_then(|l| l.split(' ').nth(1)).and_then(|c| c.parse().ok()).unwrap_or(0);
+    let mut headers = serde_json::Map::new();
+    for l in lines {
+        if let Some((k, v)) = l.split_once(':') {
+            headers.insert(k.trim().to_ascii_lowercase(), serde_json::Value::String(v.trim().to_string()));
+        }
+    }
+    serde_json::json!({"status": status, "headers": headers, "body": body})
+}
+
+fn script_of(req: &serde_json::Value) -> Vec<String> {
+    req.get("script").and_then(|s| s.as_array()).map(|a| a.iter().filter_map(|x| x.as_str().map(String::from)).collect()).unwrap_or_default()
+}
+'''
+
+RUNNER_MODULE = r'''
+async fn run_%(m)s(reqs: &[serde_json::Value]) -> serde_json::Value {
+    app::rt::take();
+    app::rt::set_script(vec![]);
+    let state = match sdk_%(m)s::ApplicationState::new(sdk_%(m)s::ApplicationConfig {}).await {
+        Ok(s) => s,
+        Err(e) => return serde_json::json!({"init_error": format!("{e:?}"), "init_trace": app::rt::take()}),
+    };
+    let init_trace = app::rt::take();
+    let listener = std::net::TcpListener::bind("127.0.0.1:0").unwrap();
+    let port = listener.local_addr().unwrap().port();
+    let incoming: pavex::server::IncomingStream = listener.try_into().unwrap();
+    let server = pavex::server::Server::new().listen(incoming);
+    let handle = sdk_%(m)s::run(server, state);
+    let mut out = Vec::new();
+    for r in reqs {
+        app::rt::set_script(script_of(r));
+        let method = r["method"].as_str().unwrap_or("GET").to_string();
+        let path = r["path"].as_str().unwrap_or("/").to_string();
+        let host = r["host"].as_str().unwrap_or("localhost").to_string();
+        let mut resp = tokio::task::spawn_blocking(move || http(port, &method, &path, &host)).await.unwrap();
+        // give the worker a moment to finish post-response work before reading the trace
+        tokio::time::sleep(std::time::Duration::from_millis(5)).await;
+        resp["trace"] = serde_json::json!(app::rt::take());
+        out.push(resp);
+    }
+    handle.shutdown(pavex::server::ShutdownMode::Forced).await;
+    serde_json::json!({"init_trace": init_trace, "responses": out})
+}
+'''
+
+
+def _runner_main(names):
+    o = [RUNNER_MAIN_HEAD]
+    for m in names:
+        o.append(RUNNER_MODULE % {"m": m})
+    o.append("#[tokio::main(flavor = \"multi_thread\", worker_threads = 2)]\nasync fn main() {\n"
+             "    let mut input = String::new();\n    std::io::stdin().read_to_string(&mut input).unwrap();\n"
+             "    let script: serde_json::Value = serde_json::from_str(&input).unwrap();\n"
+             "    let mut out = serde_json::Map::new();\n")
+    for m in names:
+        o.append("    if let Some(reqs) = script.get(\"%s\").and_then(|r| r.as_array()) { out.insert(\"%s\".into(), run_%s(reqs).await); }\n" % (m, m, m))
+    o.append("    println!(\"{}\", serde_json::Value::Object(out));\n}\n")
+    return "".join(o)
+
+
+def write_runner(ws, names):
+    """Adds a `runner` crate that links the SDKs `names` (they must compile)."""
+    d = os.path.join(ws.root, "runner")
+    os.makedirs(os.path.join(d, "src"), exist_ok=True)
+    with open(os.path.join(d, "Cargo.toml"), "w") as f:
+        f.write("[package]\nname = \"runner\"\nversion = \"0.1.0\"\nedition = \"2024\"\n[dependencies]\n"
+                "app = { path = \"../app\" }\npavex = { workspace = true }\ntokio = { version = \"1\", features = [\"full\"] }\n"
+                "serde_json = \"1\"\n" + "".join("sdk_%s = { path = \"../sdk/%s\" }\n" % (m, m) for m in names))
+    with open(os.path.join(d, "src", "main.rs"), "w") as f:
+        f.write(_runner_main(names))
+    root = os.path.join(ws.root, "Cargo.toml")
+    s = open(root).read()
+    if '"runner"' not in s:
+        s = s.replace('members = ["app"', 'members = ["runner", "app"', 1)
+        open(root, "w").write(s)
+
+
+def run_servers(ws, script, timeout=1800):
+    """script: {module: [{"method","path","host","script":[names that must fail / return early]}]}"""
+    rc, out = ws.cargo(["build", "-q", "-p", "runner"], timeout=timeout)
+    if rc != 0:
+        raise RuntimeError("runner does not build: " + out[-3000:])
+    exe = os.path.join(ws.target_dir, "debug", "runner")
+    p = subprocess.run([exe], input=json.dumps(script), stdout=subprocess.PIPE, stderr=subprocess.PIPE, text=True,
+                       timeout=timeout, env=tool_env(ws.home))
+    if p.returncode != 0:
+        raise RuntimeError("runner failed rc=%d: %s" % (p.returncode, p.stderr[-3000:]))
+    return json.loads(p.stdout.strip().split("\n")[-1])
